@@ -594,7 +594,8 @@ class C07(Prop):
     technique = ("Lean 4 proof (binary search + inherit recursion vs. reference resolver, cache invariant by induction over "
                  "histories, offset sums along inherit chains, round trip of the compressed runtime function table incl. its "
                  "256-entry overflow branch, permutation invariance of the re-sort after load_binary, argument normalisation) + translator: flag bits / origins / cache size / NAME_MASK / NAME_NO_CODE from a probe, "
-                 "function_visible, the cache hash of apply_low and the flag tests of find_function from the clang AST, with "
+                 "function_visible, the cache hash of apply_low, the flag tests of find_function, the search loop of find_func_entry "
+                 "and the literals of compress_function_tables from the clang AST, with "
                  "bridging lemmas + three-way correspondence real driver / model-BUILT tables and model-COMPRESSED tables vs the "
                  "dumped real ones / specification on the abstract graph")
     level_text = ("Lean 4 theorems about an executable model of src/apply.c (find_function, function_visible, the apply cache, "
@@ -612,7 +613,8 @@ class C07(Prop):
                   "correspondence is differential (generated inheritance graphs and call histories, wide programs around the "
                   "255-entry limit of the compressed index only as boundary cases); 16-bit truncation of function indices is not "
                   "modelled (tables have < 65536 slots)")
-    rule = ("cases = corpus + boundary list + seeded random inheritance graphs (2-7 programs, depth <= 4, up to 3 inherits per "
+    rule = ("cases = corpus + boundary list + seeded random inheritance graphs (2-7 programs, some without any function or with "
+            "only private / static functions, depth <= 4, up to 3 inherits per "
             "program with private/static/public/protected modifiers, overriding, prototypes before and after inherits, "
             "`::f` / `A::f` / local calls, function pointers, functionals `(: f() :)` / `(: ::f() :)` and anonymous functions evaluated in "
             "place, by ANOTHER object (directly or as map_array / filter_array callbacks), or stored and evaluated later by another "
@@ -623,7 +625,8 @@ class C07(Prop):
             "such file), heart_beat ticks, cache clears and forced slot collisions; one case in five saves its programs with "
             "#pragma save_binary and RELOADS everything from the binaries in the middle of the history with the function-name strings "
             "re-created in a random address order; boundary: wide programs around the 255-entry limit of the compressed table, "
-            "binary reloads under rotations / a reversal / a 3-cycle / twice; every case is run on the real driver, by the model "
+            "binary reloads under rotations / a reversal / a 3-cycle / twice, function-less inherits at every position among 2-4 "
+            "inherits; every case is run on the real driver, by the model "
             "(tables BUILT and COMPRESSED by the model must equal the dumped real ones, before and after a reload) and by the "
             "specification on the abstract graph; a case is non-trivial when at least one call ran a body")
     not_covered = ["the construction of the function tables (copy_functions, overload_function, define_new_function, epilog, "
